@@ -425,6 +425,12 @@ func (ex *Executor) evalBinary(e *SExpr, env *SpecEnv) (Val, error) {
 		if at.S != bt.S {
 			return Val{}, fmt.Errorf("comparison of different sorts in %s", e)
 		}
+		if t := emptyStringTest(at, bt); t != nil {
+			if e.Name == "==" {
+				return specBool(t), nil
+			}
+			return specBool(Not(t)), nil
+		}
 		if e.Name == "==" {
 			return specBool(Eq(at, bt)), nil
 		}
@@ -439,7 +445,7 @@ func (ex *Executor) evalBinary(e *SExpr, env *SpecEnv) (Val, error) {
 			return Val{}, err
 		}
 		if a.Ty != nil && isString(a.Ty) {
-			return Val{T: App("strcat", SInt, a.T, b.T), Ty: a.Ty}, nil
+			return Val{T: StrCat(a.T, b.T), Ty: a.Ty}, nil
 		}
 		return specInt(Add(a.T, b.T)), nil
 	case "-":
